@@ -30,7 +30,7 @@ def prop(pid, test, level, text, note, technique, rule, q, t, need_bin=False, as
 
 
 # ------------------------------------------------------------------------------------------------
-q, t = tiers(2, 1500, 16, 20000, floor_q=3000, floor_t=3000)
+q, t = tiers(2, 3000, 16, 30000, floor_q=3000, floor_t=3000)
 prop("C17", "TestC17", "exploration",
      "Exhaustive enumeration of all 3375 IUPAC codons (lenient and strict translation and the codon dictionary itself) against an "
      "every-expansion oracle built from the NCBI table-1 string, of all 32 accepted characters (and all 95 other ASCII bytes) for the "
@@ -43,7 +43,7 @@ prop("C17", "TestC17", "exploration",
      q, t, required_labels=["codon:ambiguous-resolvable", "char", "string:len>=2"],
      exhaustive_note="all 15^3 codons x {lenient, strict, dictionary}; all 32 accepted + 95 rejected ASCII characters")
 
-q, t = tiers(4, 3000, 16, 30000, floor_q=500, floor_t=5000)
+q, t = tiers(8, 8000, 16, 60000, floor_q=2000, floor_t=20000)
 prop("C03", "TestC03", "exploration",
      "Every symbol pair x gap mode x letter case x column is enumerated (6936 one-difference alignments, complete for the per-column "
      "decision), then rapid generates whole alignments (width 1..40, thorough 1..300; 1..8 records; 17-symbol alphabet in either case; "
@@ -52,10 +52,10 @@ prop("C03", "TestC03", "exploration",
      "bounded-exhaustive enumeration + property-based testing (rapid) against an independent reference model",
      "rapid: reference and 1..8 records over ACGTRYSWKMBDHVN-? (70% A/C/G/T), two thirds of records derived from the reference with 0..4 "
      "edits; non-trivial = some reported SNP involves a non-A/C/G/T symbol, or --hard-gaps with a '-' column; distinct = hash of the case",
-     q, t, required_labels=["snp-with-ambiguity-code", "hardgap-column", "wrapped", "crlf"],
+     q, t, need_bin=True, required_labels=["snp-with-ambiguity-code", "hardgap-column", "wrapped", "crlf"],
      exhaustive_note="17x17 symbol pairs x {soft,hard gaps} x 4 case combinations x 3 columns")
 
-q, t = tiers(4, 2000, 16, 20000, floor_q=500, floor_t=5000)
+q, t = tiers(8, 6000, 16, 40000, floor_q=2000, floor_t=20000)
 prop("C06", "TestC06", "exploration",
      "rapid builds target sets that force ties (exact copies, same distance with different completeness through ambiguity padding, "
      "few mutable columns), all-N and heavily ambiguous targets at any file position, and runs plain / -n K / -d D / both / --table with "
@@ -66,9 +66,9 @@ prop("C06", "TestC06", "exploration",
      "property-based testing (rapid) against a reference total order / validity predicate",
      "1..3 queries, 1..12 (one third of cases 13..48, mostly exact copies) targets of width 6..30 derived from one balanced base; non-trivial = tie at the K boundary, completeness "
      "tie-break inside the list, or an undefined-distance target present; distinct = hash of the case",
-     q, t, required_labels=["tie-at-boundary", "boundary-tie-broken-by-completeness", "boundary-tie-broken-by-file-order", "undefined-target-present", "mode:plain", "mode:n", "mode:d", "mode:nd", "table", "targets>12"])
+     q, t, need_bin=True, required_labels=["tie-at-boundary", "boundary-tie-broken-by-completeness", "boundary-tie-broken-by-file-order", "undefined-target-present", "mode:plain", "mode:n", "mode:d", "mode:nd", "table", "targets>12"])
 
-q, t = tiers(4, 2500, 16, 30000, floor_q=300, floor_t=3000)
+q, t = tiers(8, 6000, 16, 40000, floor_q=1000, floor_t=10000)
 prop("C07", "TestC07", "exploration",
      "All 17x17 symbol pairs are appended as one extra column to two fixed contexts for each measure (1734 cases: complete for the per-column "
      "contribution to snp, raw and to P1/P2/Q/L of tn93); rapid then generates pairs of width 4..60 (thorough 200) over the full alphabet, with "
@@ -81,7 +81,7 @@ prop("C07", "TestC07", "exploration",
      q, t, required_labels=["measure:raw", "measure:snp", "measure:tn93", "tn93:P1,P2,Q>0", "identical-unambiguous"],
      exhaustive_note="17x17 symbol pairs x 2 contexts x 3 measures")
 
-q, t = tiers(4, 3000, 16, 30000, floor_q=500, floor_t=5000)
+q, t = tiers(8, 8000, 16, 60000, floor_q=2000, floor_t=20000)
 prop("C10", "TestC10", "exploration",
      "rapid generates references (A/C/G/T or with IUPAC codes) and alignments built from alternating resolved/ambiguous segments (runs at either "
      "end, length-1 runs, runs one base apart, all-ambiguous rows, random rows); each output row is parsed and the sequence reconstructed "
@@ -90,9 +90,9 @@ prop("C10", "TestC10", "exploration",
      "Oracle written from the statement; both directions (nothing missing, nothing extra) because every column is classified.",
      "property-based testing (rapid): reconstruction round-trip + reference model",
      "width 1..40 (thorough 200), 1..6 records; non-trivial = a row with >= 2 ambiguity ranges and >= 1 SNP; distinct = hash of the case",
-     q, t, required_labels=["range-at-start", "range-at-end", "all-ambiguous", "ranges-one-base-apart", "range-length-1"])
+     q, t, need_bin=True, required_labels=["range-at-start", "range-at-end", "all-ambiguous", "ranges-one-base-apart", "range-length-1"])
 
-q, t = tiers(4, 4000, 16, 40000, floor_q=1000, floor_t=10000)
+q, t = tiers(8, 8000, 16, 60000, floor_q=4000, floor_t=40000)
 t["fuzz"] = dict(target="FuzzC16", seconds=120)
 t["timeout"] = 1800
 prop("C16", "TestC16", "exploration",
@@ -110,7 +110,7 @@ prop("C16", "TestC16", "exploration",
      "or a must-reject verdict; distinct = hash of the byte stream + kind",
      q, t, required_labels=["kind:layout", "kind:blank", "kind:corrupt", "spec:accept", "spec:reject", "spec:free"])
 
-q, t = tiers(4, 3000, 16, 40000, floor_q=1000, floor_t=10000)
+q, t = tiers(8, 10000, 16, 80000, floor_q=5000, floor_t=50000)
 prop("C01", "TestC01", "exploration",
      "rapid generates a reference (6..60 nt, thorough 400; occasionally with IUPAC codes) and 1..5 queries of 1..3 (thorough 5) records each. "
      "Every record is built from a per-query truth row: CIGAR over M,=,X,I,D,N,P with optional H/S/HS clips, lengths 1..6 (rare long ones), placed at any "
@@ -121,10 +121,10 @@ prop("C01", "TestC01", "exploration",
      "Model written from the statement; records without an aligned base, spans beyond LN, non-contiguous query names and SEQ '*' on primary records are not generated (undefined by the statement).",
      "property-based testing (rapid) against an independent alignment-projection model",
      "non-trivial = some CIGAR has I/D/N/S/H/P, or a query has >= 2 records, or a noise record is interleaved; distinct = hash of the case",
-     q, t, required_labels=["op:I", "op:D", "op:N", "op:S", "op:H", "op:P", "op:=", "op:X", "leading-D", "trailing-D", "adjacent-I/D", "overlapping-records",
+     q, t, need_bin=True, required_labels=["op:I", "op:D", "op:N", "op:S", "op:H", "op:P", "op:=", "op:X", "leading-D", "trailing-D", "adjacent-I/D", "overlapping-records",
                             "disjoint-records", "conflicting-bases", "noise:unmapped", "noise:secondary", "pad", "window", "wrap", "threads>1", "pos=1", "ends-at-L"])
 
-q, t = tiers(4, 2500, 16, 25000, floor_q=1000, floor_t=10000)
+q, t = tiers(8, 6000, 16, 40000, floor_q=3000, floor_t=30000)
 prop("C02", "TestC02", "exploration",
      "Same alignment generator as C01 without conflicting bases and without two records sharing one insertion slot; insertions anywhere (before the "
      "first base, after the last, adjacent to D, several per record, in several records of one query, inside another record's match-only coverage). "
@@ -135,7 +135,7 @@ prop("C02", "TestC02", "exploration",
      "Overlapping records that contain the same insertion are not generated (no single answer); record order on stdout with threads>1 is left to C12 (compared as a multiset of per-query blocks).",
      "property-based testing (rapid) against an independent alignment-projection model + metamorphic relation toPairAlign vs toMultiAlign --pad",
      "non-trivial = a query with >= 1 insertion; distinct = hash of the case; label multi-record+insertion counts the deep class",
-     q, t, required_labels=["query-with-insertion", "multi-record+insertion", "several-insertions", "insertion-before-first-base", "insertion-after-last-base",
+     q, t, need_bin=True, required_labels=["query-with-insertion", "multi-record+insertion", "several-insertions", "insertion-before-first-base", "insertion-after-last-base",
                             "skip-insertions", "omit-reference", "window", "wrap", "stdout", "threads>1"])
 
 VAR_GEN = ("annotation model: reference 20..90 nt (thorough 300), 0..4 (thorough 6) coding features, forward/reverse, 1..3 segments incl. abutting and "
@@ -147,7 +147,7 @@ VAR_GEN = ("annotation model: reference 20..90 nt (thorough 300), 0..4 (thorough
            "as FASTA MSA (reference anywhere in the file or taken from the annotation, shared insertion slots with left/right/spread placement, extra "
            "all-gap columns) or as SAM records (C01 generator on the annotated reference, with or without --reference)")
 
-q, t = tiers(4, 1500, 16, 15000, floor_q=300, floor_t=3000, q_timeout=300)
+q, t = tiers(8, 4000, 16, 30000, floor_q=1000, floor_t=10000, q_timeout=400)
 prop("C04", "TestC04", "exploration",
      "Each generated case is run through variants (MSA form) or sam variants (SAM form) with --append-snps; every row is parsed and checked "
      "against a coordinate-level oracle built from base sets and the NCBI table: (a) the positions mentioned as nuc: records or inside (nuc:...) "
@@ -158,11 +158,11 @@ prop("C04", "TestC04", "exploration",
      "Reference ambiguity codes are kept outside features and GenBank CDS always carry /gene (documented refusals otherwise); insertions inside a codon are ignored for translation as documented; record order inside a row is not asserted here.",
      "property-based testing (rapid) against an independent reference model (base sets + NCBI table 1 + feature geometry)",
      VAR_GEN + "; non-trivial = a query with >= 1 expected aa record and >= 1 nucleotide difference; distinct = hash of the case",
-     q, t, required_labels=["format:gb", "format:gff", "form:msa", "form:sam", "feat:reverse", "feat:joined", "feat:reverse-joined", "feat:overlapping",
+     q, t, need_bin=True, required_labels=["format:gb", "format:gff", "form:msa", "form:sam", "feat:reverse", "feat:joined", "feat:reverse-joined", "feat:overlapping",
                             "feat:unnamed", "feat:codon_start>1", "aa-in-reverse-feature", "aa-codon-spans-join", "aa-from-iupac-codon",
                             "snp-in-unnamed-feature", "codon-broken-by-gap", "gff:spec-phases", "row:aa", "row:nuc"])
 
-q, t = tiers(4, 1200, 16, 12000, floor_q=300, floor_t=3000, q_timeout=300)
+q, t = tiers(8, 3000, 16, 25000, floor_q=1000, floor_t=10000, q_timeout=400)
 prop("C05", "TestC05", "exploration",
      "Indel-heavy variant of the C04 generator (up to 5 insertions and 5 deletions per query, at the alignment ends, adjacent to each other and to "
      "feature borders, MSA with other sequences' insertions and extra all-gap columns, and SAM form). Oracle: an independent scan in reference "
@@ -172,10 +172,10 @@ prop("C05", "TestC05", "exploration",
      "Oracle from the statement; the same rows are also checked for C04's nuc/aa rules.",
      "property-based testing (rapid): reference-coordinate model + metamorphic relation (remove both-gap columns)",
      VAR_GEN + "; non-trivial = >= 2 reference-gap runs with an indel, or an indel right of an earlier gap column; distinct = hash of the case",
-     q, t, required_labels=["indel-after-earlier-gap-column", "insertion-abutting-end", "insertion-abutting-start", "deletion-abutting-start",
+     q, t, need_bin=True, required_labels=["indel-after-earlier-gap-column", "insertion-abutting-end", "insertion-abutting-start", "deletion-abutting-start",
                             "deletion-abutting-end", "deletion-spanning-insertion-slot", "both-gap-columns", "form:sam", "form:msa"])
 
-q, t = tiers(4, 1000, 16, 10000, floor_q=200, floor_t=2000, q_timeout=300)
+q, t = tiers(8, 2500, 16, 20000, floor_q=500, floor_t=5000, q_timeout=400)
 prop("C11", "TestC11", "exploration",
      "Differential between commands on gofasta's own intermediate files: for every generated SAM + annotation, the row `sam variants` prints for a "
      "query must be identical (same records, same order) to the row `variants` prints for the reference/query pair written by `sam toPairAlign` "
@@ -186,7 +186,7 @@ prop("C11", "TestC11", "exploration",
      VAR_GEN + " (SAM form only); non-trivial = a query with >= 1 indel and >= 1 nucleotide difference; distinct = hash of the case",
      q, t, required_labels=["leg:toMultiAlign", "append-snps", "window", "reference-from-annotation", "format:gb", "format:gff"])
 
-q, t = tiers(4, 1200, 16, 12000, floor_q=200, floor_t=2000, q_timeout=300)
+q, t = tiers(8, 3000, 16, 25000, floor_q=500, floor_t=5000, q_timeout=400)
 prop("C13", "TestC13", "exploration",
      "For snps, variants and sam variants the same input is run per-sequence and with --aggregate --threshold T. Expected aggregate = for each distinct "
      "mutation string of the per-sequence output, (rows containing it)/(rows) as float64, printed %.9f, kept iff >= T — compared as a set of lines in "
@@ -196,9 +196,9 @@ prop("C13", "TestC13", "exploration",
      "property-based testing (rapid): metamorphic relation aggregate == count(per-sequence)",
      "C03 generator (snps) and the C04 generator (variants, msa and sam form) with duplicated sequences; non-trivial = >= 2 sequences, some mutation with "
      "0 < frequency < 1 and the threshold excluding something; distinct = hash of the case",
-     q, t, required_labels=["kind:snps", "kind:variants", "form:msa", "form:sam", "threshold-binding", "partial-frequency", "threshold-equals-a-frequency-candidate"])
+     q, t, need_bin=True, required_labels=["kind:snps", "kind:variants", "form:msa", "form:sam", "threshold-binding", "partial-frequency", "threshold-equals-a-frequency-candidate"])
 
-q, t = tiers(4, 1200, 16, 12000, floor_q=150, floor_t=1500, q_timeout=300)
+q, t = tiers(8, 3000, 16, 25000, floor_q=400, floor_t=4000, q_timeout=400)
 prop("C14", "TestC14", "exploration",
      "The annotation model is rendered as a GenBank flat file and as GFF3 in three dialects (segments on codon boundaries with phase 0, arbitrary "
      "boundaries with spec-correct continuation phases, both), all five location shapes, CDS or mature_protein_region_of_CDS rows, with/without "
@@ -209,7 +209,7 @@ prop("C14", "TestC14", "exploration",
      VAR_GEN + "; non-trivial = an aa call inside a reverse or joined feature; distinct = hash of the case",
      q, t, required_labels=["feat:reverse", "feat:joined", "feat:reverse-joined", "gff:spec-phases", "aa-call-in-reverse-or-joined-feature", "form:msa", "form:sam"])
 
-q, t = tiers(4, 500, 16, 5000, floor_q=200, floor_t=2000, q_timeout=400)
+q, t = tiers(8, 1200, 16, 10000, floor_q=500, floor_t=5000, q_timeout=600)
 prop("C15", "TestC15", "exploration",
      "Algebraic relations between gofasta's own runs: toMultiAlign --start/--end (each alone, both; every window when L <= 12) == columns of the untrimmed "
      "output (with --pad: N outside); legacy --trim --trimstart a --trimend b (binary) == --start a+1 --end b; toPairAlign --start/--end == untrimmed pair "
@@ -228,7 +228,7 @@ UD_GEN = ("reference A/C/G/T of width 6..30; a pool of 2..6 (position, allele) S
           "hits, ties on distance and ambiguity count and every bin occur; options: --size-total | --size-up/-down/-side/-same in 0..3 | none; --dist-all | "
           "--dist-up/-down/-side | none; --no-fill; --dist-push 1..3 (alone); --threshold-pair in {0,.1,.25,.5,1}; --threshold-target; --ignore; --table")
 
-q, t = tiers(4, 1500, 16, 15000, floor_q=300, floor_t=3000, q_timeout=300)
+q, t = tiers(8, 5000, 16, 30000, floor_q=1000, floor_t=10000, q_timeout=400)
 prop("C08", "TestC08", "exploration",
      "Oracle computed from the raw sequences: per (query,target) the bin from which sequence carries A/C/G/T differences from the reference the other lacks, "
      "distance = columns where both are A/C/G/T and differ, float32 pairwise ambiguity ratio, target ambiguity filter, ignore list; candidates per bin "
@@ -240,11 +240,11 @@ prop("C08", "TestC08", "exploration",
      "Where the specification admits several outputs (fill order, remainder of --size-total) the oracle is a validity predicate; -1 'easter egg' sizes are not generated.",
      "property-based testing (rapid) + bounded-exhaustive enumeration against a sequence-level reference model / validity predicate",
      UD_GEN + "; non-trivial = a bin is short while another has spare (fill happens), or a threshold binds, or a multiple hit changes a distance, or dist-push cuts; distinct = hash of the case",
-     q, t, required_labels=["fill-happens", "no-fill", "size-total", "size-per-bin", "dist-limits", "dist-limit-cuts", "dist-push", "dist-push-cuts",
+     q, t, need_bin=True, required_labels=["fill-happens", "no-fill", "size-total", "size-per-bin", "dist-limits", "dist-limit-cuts", "dist-push", "dist-push-cuts",
                             "pair-threshold-binds", "target-threshold-binds", "multiple-hit", "ignore", "table"],
      exhaustive_note="allocation arithmetic: supplies 0..3^4 x requested 0..3^4 x no-fill (thorough: all points; quick: 1/8 sample rotated by seed)")
 
-q, t = tiers(4, 1000, 16, 10000, floor_q=300, floor_t=3000, q_timeout=300)
+q, t = tiers(8, 3000, 16, 20000, floor_q=1000, floor_t=10000, q_timeout=400)
 prop("C09", "TestC09", "exploration",
      "Differential: the CSVs are produced by gofasta's own `updown list` from the generated alignments; topranking is run under the four "
      "(query,target) in {fasta,csv}^2 combinations with the same options and the four outputs must be byte-identical; the csv/csv output is also parsed "
@@ -254,7 +254,7 @@ prop("C09", "TestC09", "exploration",
      UD_GEN + "; non-trivial = >= 2 queries and some non-empty bin; distinct = hash of the case",
      q, t, required_labels=["queries>=2", "table", "dist-push"])
 
-q, t = tiers(4, 150, 16, 1500, floor_q=100, floor_t=1000, q_timeout=400)
+q, t = tiers(8, 300, 16, 3000, floor_q=300, floor_t=3000, q_timeout=600)
 prop("C19", "TestC19", "fault_enumeration",
      "For 14 exported entry points (snps, variants, sam variants each with and without --aggregate; toMultiAlign with and without --wrap; closest, closest -n, "
      "closest -n --table; updown list; topranking list and --table) and rapid-generated valid inputs, a counting io.Writer first records the number N of "
@@ -271,7 +271,7 @@ prop("C19", "TestC19", "fault_enumeration",
                       "entry:toMultiAlign", "entry:toMultiAlign-wrap", "entry:closest", "entry:closestN", "entry:closestN-table", "entry:updown-list",
                       "entry:topranking", "entry:topranking-table", "proc:toPairAlign-stdout", "proc:toPairAlign-symlink"])
 
-q, t = tiers(8, 100, 16, 1500, floor_q=300, floor_t=3000, q_timeout=600, t_timeout=3000)
+q, t = tiers(8, 250, 16, 2500, floor_q=500, floor_t=5000, q_timeout=600, t_timeout=3000)
 prop("C18", "TestC18", "exploration",
      "Process level, binary built from the tree. For each of snps, closest (plain and -n), updown list, updown topranking (fasta or csv query/target), "
      "variants, sam toMultiAlign, sam toPairAlign, sam variants a valid input is generated (and first run to confirm exit 0), then exactly one "
@@ -288,10 +288,10 @@ prop("C18", "TestC18", "exploration",
                       "corruption:unequal-row", "corruption:non-iupac", "corruption:empty-file", "corruption:missing-file", "corruption:empty-sam",
                       "corruption:width-mismatch", "corruption:reference-two-records", "corruption:empty-csv", "corruption:csv-not-updown-list"])
 
-q, t = tiers(4, 120, 16, 600, floor_q=100, floor_t=1000, q_timeout=600, t_timeout=3000)
+q, t = tiers(8, 250, 16, 600, floor_q=300, floor_t=1500, q_timeout=600, t_timeout=3000)
 t["race"] = True
-t["checks"] = 250
-q["race_arm"] = dict(shards=2, checks=40)
+t["checks"] = 400
+q["race_arm"] = dict(shards=4, checks=60)
 prop("C12", "TestC12", "exploration",
      "For every command (sam toMultiAlign with/without --wrap, toPairAlign directory and -o stdout, sam variants and variants with/without --aggregate, snps "
      "with/without --aggregate, closest, closest -n with/without --table, updown list, updown topranking list/--table) an input with >= 8 records is generated "
@@ -304,7 +304,7 @@ prop("C12", "TestC12", "exploration",
      "Explores the interleavings that jitter at the seven stage boundaries, thread counts and GOMAXPROCS can produce, plus the race detector; it cannot enumerate all interleavings nor prove race freedom. A green run means no divergence in the N perturbed schedules listed in the evidence (coverage.counters.runs / runs_with_completion_order_inversion). `sam indels` is out of scope.",
      "property-based testing (rapid): metamorphic relation output(configuration) == output(baseline) under seeded schedule perturbation; race detector in the thorough tier",
      "inputs from the C01/C04/C03/C06/C08 generators padded to >= 8 records; non-trivial = a run in which the hook observed a completion-order inversion, or threads > 1 with >= 8 records; distinct = hash of the case (input + configurations)",
-     q, t, required_labels=["cmd:toMultiAlign", "cmd:toPairAlign", "cmd:toPairAlign-stdout", "cmd:sam-variants", "cmd:variants", "cmd:snps", "cmd:closest", "cmd:closestN",
+     q, t, need_bin=True, required_labels=["cmd:toMultiAlign", "cmd:toPairAlign", "cmd:toPairAlign-stdout", "cmd:sam-variants", "cmd:variants", "cmd:snps", "cmd:closest", "cmd:closestN",
                             "cmd:updown-list", "cmd:topranking", "inversion-observed"])
 
 NOT_CLAIMED = {}
